@@ -12,6 +12,7 @@ import (
 	"strings"
 
 	"github.com/goreleaser/nfpm/v2"
+	"github.com/goreleaser/nfpm/v2/files"
 	"gopkg.in/yaml.v3"
 	"verif/harness/internal/report"
 	"verif/harness/internal/rng"
@@ -299,6 +300,120 @@ func runC17(c *Ctx) error {
 			if n, _ := fmt.Sscanf(line, "%d", &idx); n == 1 && idx >= 0 && idx < len(accepted) && err == nil {
 				c.Rep.Find(report.Finding{Property: "C17", Family: "accepts-implies-validates", Shape: "schema-rejects-accepted-document:second-opinion",
 					What: "the strict parser accepts the document but the emitted schema rejects it (python jsonschema): " + line, Input: map[string]any{"document_json": accepted[idx]}})
+			}
+		}
+	}
+	// ---- every value of an enumerated setting that the packagers can build with must validate.  The candidates
+	// are not a fixed list: every short string literal of the packager's source is tried (whatever value the code
+	// compares a setting with is one of them), so a value a packager newly understands is found without being named.
+	{
+		fam3 := c.Rep.Family("buildable-settings-validate", "for deb.compression, rpm.compression and contents[].type (version_schema: the documented names only, since every string is accepted and means semver unless it is 'none'; the two entry types planning derives itself are left out): every short string literal occurring in the non-test source of the packager concerned (deb/*.go, rpm/*.go + the compression names of the other packager, files/*.go, nfpm.go) plus the values of the fixed lists, tried as the setting's value on an otherwise minimal configuration: when the document parses and the package builds, the emitted schema must validate the document; one evaluation per candidate; non-trivial = the package builds")
+		tree, terr := MkTree(filepath.Join(c.Tmp, "c17src"), 0)
+		if terr != nil {
+			return terr
+		}
+		lits := func(globs ...string) []string {
+			seen := map[string]bool{}
+			re := regexp.MustCompile(`"([A-Za-z0-9:._|+ -]{1,20})"`)
+			for _, g := range globs {
+				ms, _ := filepath.Glob(filepath.Join(c.Repo, g))
+				for _, f := range ms {
+					if strings.HasSuffix(f, "_test.go") {
+						continue
+					}
+					b, err := os.ReadFile(f)
+					if err != nil {
+						continue
+					}
+					for _, m := range re.FindAllStringSubmatch(string(b), -1) {
+						seen[m[1]] = true
+					}
+				}
+			}
+			var out []string
+			for v := range seen {
+				out = append(out, v)
+			}
+			sort.Strings(out)
+			return out
+		}
+		type setting struct {
+			path   string
+			format string
+			cands  []string
+			doc    func(v string) map[string]any
+		}
+		base := func() map[string]any {
+			return map[string]any{"name": "p", "arch": "amd64", "version": "1.0.0",
+				"contents": []any{map[string]any{"src": filepath.Join(tree.Root, "bin/tool"), "dst": "/usr/bin/tool"}}}
+		}
+		settings := []setting{
+			{"deb.compression", "deb", append(lits("deb/*.go", "rpm/*.go"), enumerated["deb.compression"]...), func(v string) map[string]any {
+				d := base()
+				d["deb"] = map[string]any{"compression": v}
+				return d
+			}},
+			{"rpm.compression", "rpm", append(lits("rpm/*.go", "deb/*.go"), enumerated["rpm.compression"]...), func(v string) map[string]any {
+				d := base()
+				d["rpm"] = map[string]any{"compression": v}
+				return d
+			}},
+			{"contents.[].type", "rpm", append(lits("files/*.go"), enumerated["contents.[].type"]...), func(v string) map[string]any {
+				d := base()
+				e := map[string]any{"src": filepath.Join(tree.Root, "etc/app.conf"), "dst": "/etc/app/app.conf", "type": v}
+				if v == "symlink" {
+					e["src"] = "/usr/bin/tool"
+				}
+				if v == "dir" || v == "ghost" {
+					delete(e, "src")
+				}
+				if v == "tree" {
+					e["src"] = filepath.Join(tree.Root, "tree")
+				}
+				d["contents"] = append(d["contents"].([]any), e)
+				return d
+			}},
+			// version_schema: every string is accepted and every string but "none" means semver, so there is nothing
+			// to discover beyond the documented names
+			{"version_schema", "deb", enumerated["version_schema"], func(v string) map[string]any {
+				d := base()
+				d["version_schema"] = v
+				return d
+			}},
+		}
+		for _, st := range settings {
+			done := map[string]bool{}
+			for _, v := range st.cands {
+				if done[v] {
+					continue
+				}
+				done[v] = true
+				if st.path == "contents.[].type" && (v == files.TypeImplicitDir || v == files.TypeDebChangelog) {
+					continue // entry types that planning itself derives (implied parents, the generated deb changelog): not settings
+				}
+				doc := st.doc(v)
+				yb, _ := yaml.Marshal(doc)
+				cfg, perr := nfpm.ParseWithEnvMapping(bytes.NewReader(yb), func(string) string { return "" })
+				builds := false
+				if perr == nil {
+					if info, gerr := cfg.Get(st.format); gerr == nil {
+						_, berr := BuildPkg(st.format, nfpm.WithDefaults(info))
+						builds = berr == nil
+					}
+				}
+				fam3.Eval(st.path+"="+v, builds)
+				if !builds {
+					continue
+				}
+				fam3.Count(st.path + ":builds")
+				jb, _ := json.Marshal(doc)
+				var jd any
+				_ = json.Unmarshal(jb, &jd)
+				if verrs := validateSchema(root, root, jd, "$"); len(verrs) > 0 {
+					c.Rep.Find(report.Finding{Property: "C17", Family: "buildable-settings-validate", Shape: "schema-rejects-buildable-setting:" + st.path,
+						What:  fmt.Sprintf("%s: %q parses and the %s package builds, but the emitted schema rejects the document: %s", st.path, v, st.format, strings.Join(verrs, "; ")),
+						Input: map[string]any{"setting": st.path, "value": v, "document": string(yb)}})
+				}
 			}
 		}
 	}
